@@ -417,3 +417,97 @@ func H10_broken_reconnect() {
 	}
 	vrtReach("C10.broken_reconnect")
 }
+
+// H09_retained_will_qos: a retained will with QoS >= 1 while a live
+// subscription on its topic has a LOWER granted QoS: the live subscriber gets
+// the downgraded copy, but what is stored (and handed to a later subscription
+// with a higher granted QoS) keeps the QoS given in the CONNECT.
+func H09_retained_will_qos() {
+	b := vrtBroker("mockSuccess")
+	live, _ := b.connect(vrtConnectPkt([]byte("live"), true))
+	ql := vrtByte("live_qos")
+	vrtAssume(ql <= 2)
+	vrtExchange(live, &specPkt{Typ: specSUBSCRIBE, ID: 1, Topics: [][]byte{[]byte("wq")}, QoS: []byte{ql}})
+	live.peerTake()
+	qw := vrtByte("will_qos")
+	vrtAssume(qw <= 2)
+	w := vrtWill{flag: true, qos: qw, retain: true, topic: []byte("wq"), payload: []byte("gone")}
+	c, ack := b.connect(vrtConnectWithWill([]byte("c"), vrtBool("clean"), w))
+	vrtAssert("C09.harness_connack", vrtIsConnack(ack, false, 0))
+	vrtEnd(c, 1+vrtChoice("end", 2)) // network drop or keep-alive expiry
+	got, ok := vrtParse(live.peerTake())
+	vrtAssert("C09.stream_wellformed", ok)
+	vrtAssert("C09.will_published_once", len(got) == 1)
+	if len(got) == 1 {
+		vrtAssert("C09.will_qos", (got[0].Flags>>1)&3 == specMinQos(qw, ql))
+		vrtAssert("C09.will_forwarded_without_retain_flag", got[0].Flags&1 == 0)
+	}
+	vrtAssert("C09.will_retained", b.retainedCount() == 1)
+	late, _ := b.connect(vrtConnectPkt([]byte("late"), true))
+	ans, ok2 := vrtParse(vrtExchange(late, &specPkt{Typ: specSUBSCRIBE, ID: 1, Topics: [][]byte{[]byte("wq")}, QoS: []byte{2}}))
+	vrtAssert("C09.stream_wellformed", ok2 && len(ans) == 2)
+	if ok2 && len(ans) == 2 {
+		vrtAssert("C09.retained_will_keeps_its_qos", vrtAnd(ans[1].Flags&1 == 1, vrtAnd((ans[1].Flags>>1)&3 == qw, vrtBytesEq(ans[1].Payload, []byte("gone")))))
+	}
+	vrtReach("C09.retained_will_qos")
+}
+
+// H10_unsubscribe_resumed: subscribe on the first connection of a persistent
+// session, UNSUBSCRIBE on a resumed second one, resume a third time: the filter
+// stays gone (and the one that was kept stays).
+func H10_unsubscribe_resumed() {
+	b := vrtBroker("mockSuccess")
+	wit, _ := b.connect(vrtConnectPkt([]byte("wit"), true))
+	c1, _ := b.connect(vrtConnectPkt([]byte("x"), false))
+	vrtExchange(c1, &specPkt{Typ: specSUBSCRIBE, ID: 1, Topics: [][]byte{[]byte("t1"), []byte("t2")}, QoS: []byte{1, 0}})
+	vrtEnd(c1, vrtChoice("end1", 2))
+	c2, ack := b.connect(vrtConnectPkt([]byte("x"), false))
+	vrtAssert("C10.session_present_flag", vrtIsConnack(ack, true, 0))
+	gone := []byte("t1")
+	kept := []byte("t2")
+	if vrtBool("unsubscribe_second") {
+		gone, kept = kept, gone
+	}
+	ans := vrtExchange(c2, &specPkt{Typ: specUNSUBSCRIBE, ID: 2, Topics: [][]byte{gone}})
+	vrtAssert("C10.harness_unsuback", vrtBytesEq(ans, []byte{0xB0, 2, 0, 2}))
+	vrtEnd(c2, vrtChoice("end2", 2))
+	wit.peerTake()
+	c3, ack3 := b.connect(vrtConnectPkt([]byte("x"), false))
+	vrtAssert("C10.session_present_flag", vrtIsConnack(ack3, true, 0))
+	vrtExchange(wit, &specPkt{Typ: specPUBLISH, Flags: 2, ID: 60, Topic: gone, Payload: []byte("1")})
+	vrtAssert("C10.unsubscribed_filter_stays_gone", len(c3.peerTake()) == 0)
+	vrtExchange(wit, &specPkt{Typ: specPUBLISH, Flags: 2, ID: 61, Topic: kept, Payload: []byte("2")})
+	got, ok := vrtParse(c3.peerTake())
+	vrtAssert("C10.restored_subscription_delivers", ok && len(got) == 1)
+	vrtReach("C10.unsubscribe_resumed")
+}
+
+// H10_restored_before_first_answer: the stored subscriptions of a resumed
+// session are active again by the time the new connection answers its first
+// request: when a filter is put back into the subscription tree (hook on the
+// topic store), no answer to a request sent behind the CONNECT has left yet.
+func H10_restored_before_first_answer() {
+	b := vrtBroker("mockSuccess")
+	c1, _ := b.connect(vrtConnectPkt([]byte("x"), false))
+	vrtExchange(c1, &specPkt{Typ: specSUBSCRIBE, ID: 1, Topics: [][]byte{[]byte("t1"), []byte("t2")}, QoS: []byte{1, 0}})
+	vrtEnd(c1, vrtChoice("end1", 2))
+	c := b.open()
+	restored := 0
+	vrtTopicsHook.onSubscribe = func(f []byte) {
+		restored++
+		vrtQuiesce() // the re-activation takes its time: whatever else can run, runs first
+		c.mu.Lock()
+		out := append([]byte(nil), c.out...)
+		c.mu.Unlock()
+		// only the CONNACK may have been written so far
+		vrtAssert("C10.restored_before_first_answer", len(out) <= 4)
+	}
+	// CONNECT and, right behind it, the first request
+	c.peerSend(append(specEncode(vrtConnectPkt([]byte("x"), false)), specEncode(&specPkt{Typ: specPINGREQ})...))
+	vrtQuiesce()
+	vrtTopicsHook.onSubscribe = nil
+	vrtAssert("C10.harness_hook_ran", restored == 2)
+	ans, ok := vrtParse(c.peerTake())
+	vrtAssert("C10.stream_wellformed", ok && len(ans) == 2)
+	vrtReach("C10.restored_before_first_answer")
+}
